@@ -48,7 +48,9 @@ ASSUMPTIONS = [
     "DEX.disassemble(offset, size): size is taken as the byte count of the range (it is what read_at() reads)",
     "a buffer is a 'valid stream' when the reference sweep decodes it completely with strictly valid instructions and "
     "complete, 4-byte aligned payloads and the declared size equals the buffer; every other buffer only gets oracle (b)",
-    "termination = event budget of mc/budget.py (BUDGET0 + BUDGET1 x bytes), not wall clock",
+    "termination = event budget of mc/budget.py (BUDGET0 + BUDGET1 x bytes), not wall clock; a case that exceeds it is "
+    "repeated once in the same process and only a second excess is a violation (one-time lazy initialisation in the "
+    "library is charged to the first case that triggers it); replay makes the same two attempts",
     "history dimensions: (1) later requests on the same DCode object (get_instructions twice, then off_to_pos) must give "
     "the first sweep's verdict - judged for every buffer; (2) all 1-unit buffers again in DEX mode after an ODEX-mode "
     "sweep in the same process (forked child; witness carries the history and replay executes it)",
@@ -257,6 +259,7 @@ class Env:
         self.cm = StubCM(dex)
         self.Invalid = dex.InvalidInstruction
         self.budget = BudgetSession(dex) if budget else None
+        self.budget_retries = 0
 
     def close(self):
         if self.budget:
@@ -310,6 +313,13 @@ def judge(env, buf, size):
             got.append(ins)
 
     status, val, events = env.budget.run(sweep, BUDGET0 + BUDGET1 * n)
+    if status == "budget":
+        # one-time lazy initialisation inside the library (first-use tables, caches, imports) is charged to whichever
+        # case triggers it first in a process and is not input dependent: repeat the same case once, immediately, in
+        # the same process; only exceeding the budget AGAIN counts (a sweep that does not terminate always does)
+        del got[:]
+        status, val, events = env.budget.run(sweep, BUDGET0 + BUDGET1 * n)
+        env.budget_retries += 1
     v = []
     # ---- oracle (b): holds for every buffer
     off = 0
@@ -928,6 +938,8 @@ def _run_shard(ctx, shard):
     for o in acc._oc:
         acc.outcomes.add(h8(o))
     del acc._oc
+    if env.budget_retries:
+        acc.count("budget_second_attempts", env.budget_retries)
     env.close()
     return acc
 
